@@ -263,8 +263,8 @@ Proof.
   assert (G : forall v, (match v with VRef _ _ => False | _ => True end) -> good m (SNext (set_stack s (v :: k2)))).
   { intros v Hv. simpl. split; [|exact F]. apply wf_set_stack; [exact W|]. constructor; [|exact H2]. destruct v; try exact I; contradiction. }
   rewrite Hd. cbn [negb andb].
-  destruct (if o =? 36 then a0 else as_arith a0) as [| x | | | x | |ka la| ] eqn:Ea;
-  destruct (if o =? 36 then b0 else as_arith b0) as [| y | | | y | |kb lb| ] eqn:Eb;
+  destruct (as_arith a0) as [| x | | | x | |ka la| ] eqn:Ea;
+  destruct (as_arith b0) as [| y | | | y | |kb lb| ] eqn:Eb;
   try destruct ka; try destruct kb; cbn [is_arr orb];
   repeat match goal with
          | |- good _ (if ?b then _ else _) => destruct b
@@ -344,6 +344,7 @@ Proof.
   all: try (apply arith_op_good; assumption).
   all: try (apply cmp_op_good; assumption).
   all: try (apply do_return_good; assumption).
+  all: unfold as_arith.
   all: repeat (first [stk | vals_split]).
   all: try exact I.
   (* heap cells behind the references on the stack *)
@@ -416,7 +417,7 @@ Proof. unfold cmp_op. destruct (pop (st_stack s)) as [b k1]. destruct (pop k1) a
 Lemma arith_op_errfinal c s o : errfinal s (arith_op c s o).
 Proof.
   unfold arith_op. destruct (pop (st_stack s)) as [b k1]. destruct (pop k1) as [a k2].
-  destruct (if o =? 36 then a else as_arith a) as [| | | | | |ka ?| ]; destruct (if o =? 36 then b else as_arith b) as [| | | | | |kb ?| ];
+  destruct (as_arith a) as [| | | | | |ka ?| ]; destruct (as_arith b) as [| | | | | |kb ?| ];
   try destruct ka; try destruct kb; cbn [is_arr orb];
   repeat match goal with |- context [if ?b then _ else _] => destruct b end;
   first [exact I | split; [discriminate|reflexivity]].
@@ -438,6 +439,7 @@ Proof.
   all: try apply arith_op_errfinal.
   all: try apply cmp_op_errfinal.
   all: try apply do_return_errfinal.
+  all: unfold as_arith.
   all: repeat match goal with
        | |- context [pop ?kk] => is_var kk; destruct kk as [|? kk]; cbn [pop]
        | |- context [match ?kk with [] => _ | _ :: _ => _ end] => is_var kk; destruct kk as [|? kk]
@@ -485,21 +487,21 @@ Section ArrTrap.
     exists s', exec_instr c m s0 fr frs ip i n = SErr E_OOB s' /\ st_out s' = st_out s0.
   Proof.
     intros Ho Hs Hl. unfold exec_instr. rewrite Ho. cbn [st_stack set_ip]. rewrite Hs. cbn [pop]. rewrite hget_ip.
-    cbn [idx_of]. pose proof (oob_traps_guarded c EVm AGet _ idx Harr Hl) as E. simpl in E. rewrite E. eexists; split; reflexivity.
+    cbn [aidx_of]. pose proof (oob_traps_guarded c EVm AGet _ idx Harr Hl) as E. simpl in E. rewrite E. eexists; split; reflexivity.
   Qed.
   Lemma arr_set_traps idx v : op i = 84 -> st_stack s0 = v :: VInt idx :: VRef KArr l :: k ->
     legit ASet (N.of_nat (length els)) idx = false ->
     exists s', exec_instr c m s0 fr frs ip i n = SErr E_OOB s' /\ st_out s' = st_out s0.
   Proof.
     intros Ho Hs Hl. unfold exec_instr. rewrite Ho. cbn [st_stack set_ip]. rewrite Hs. cbn [pop]. rewrite hget_ip.
-    cbn [idx_of]. pose proof (oob_traps_guarded c EVm ASet _ idx Harr Hl) as E. simpl in E. rewrite E. eexists; split; reflexivity.
+    cbn [aidx_of]. pose proof (oob_traps_guarded c EVm ASet _ idx Harr Hl) as E. simpl in E. rewrite E. eexists; split; reflexivity.
   Qed.
   Lemma arr_remove_traps idx : op i = 87 -> st_stack s0 = VInt idx :: VRef KArr l :: k ->
     legit ARemove (N.of_nat (length els)) idx = false ->
     exists s', exec_instr c m s0 fr frs ip i n = SErr E_OOB s' /\ st_out s' = st_out s0.
   Proof.
     intros Ho Hs Hl. unfold exec_instr. rewrite Ho. cbn [st_stack set_ip]. rewrite Hs. cbn [pop]. rewrite hget_ip.
-    cbn [idx_of]. pose proof (oob_traps_guarded c EVm ARemove _ idx Harr Hl) as E. simpl in E. rewrite E. eexists; split; reflexivity.
+    cbn [aidx_of]. pose proof (oob_traps_guarded c EVm ARemove _ idx Harr Hl) as E. simpl in E. rewrite E. eexists; split; reflexivity.
   Qed.
 End ArrTrap.
 
@@ -550,7 +552,7 @@ Proof. unfold cmp_op. destruct (pop (st_stack s)) as [b k1]. destruct (pop k1) a
 Lemma arith_op_ni c s o : not_invalid (arith_op c s o).
 Proof.
   unfold arith_op. destruct (pop (st_stack s)) as [b k1]. destruct (pop k1) as [a k2].
-  destruct (if o =? 36 then a else as_arith a) as [| | | | | |ka ?| ]; destruct (if o =? 36 then b else as_arith b) as [| | | | | |kb ?| ];
+  destruct (as_arith a) as [| | | | | |ka ?| ]; destruct (as_arith b) as [| | | | | |kb ?| ];
   try destruct ka; try destruct kb; cbn [is_arr orb];
   repeat match goal with |- context [if ?b then _ else _] => destruct b end;
   first [exact I | simpl; discriminate].
@@ -568,6 +570,7 @@ Proof.
   all: try apply arith_op_ni.
   all: try apply cmp_op_ni.
   all: try apply do_return_ni.
+  all: unfold as_arith.
   all: repeat match goal with
        | |- context [pop ?kk] => is_var kk; destruct kk as [|? kk]; cbn [pop]
        | |- context [match ?kk with [] => _ | _ :: _ => _ end] => is_var kk; destruct kk as [|? kk]
